@@ -1417,8 +1417,8 @@ class Interp:
                 return self.equals(a, b)
             if isinstance(op, ast.NotEq):
                 return Not(self.equals(a, b))
-            if isinstance(a, (str, bytes)) and isinstance(b, SStr) or isinstance(b, (str, bytes)) and isinstance(a, SStr):
-                raise Unreached('ordering comparison on symbolic strings')
+            if isinstance(a, (str, bytes)) and isinstance(b, SStr):
+                a = SStr(core._s(a), b.kind) if core._kind(a) == b.kind else a
             if isinstance(op, ast.Lt):
                 return a < b
             if isinstance(op, ast.LtE):
@@ -1427,7 +1427,12 @@ class Interp:
                 return a > b
             if isinstance(op, ast.GtE):
                 return a >= b
+        except (PyRaise, PathCut, Unreached):
+            raise
         except TypeError as ex:
+            if (is_sym(a) or is_sym(b) or isinstance(a, (Obj, ExcVal)) or isinstance(b, (Obj, ExcVal))) and a is not None and b is not None:
+                # an operation the encoding does not support is not a TypeError of the subject
+                raise Unreached('ordering comparison %s on %r, %r: %s' % (type(op).__name__, a, b, ex))
             raise PyRaise(ExcVal(TypeError, ex.args))
         raise Unreached('comparison %s' % type(op).__name__)
 
